@@ -553,6 +553,25 @@ func (r *tunRun) startWorkload() {
 				if c.Think && e.Choose("wl.think", 3) == 0 {
 					s.SleepFor(time.Duration(1+e.Choose("wl.thinkamt", 40)) * c.R / 10)
 				}
+				if (e.Spec.Prop == "C03" || e.Spec.Prop == "C10") && e.Choose("wl.sendbad", 30) == 0 {
+					// an application error: a frame without a transport unit cannot be encoded. The caller
+					// gets an error or a panic of its own making (which it survives here), never a
+					// success, and the tunnel goes on working for everybody else
+					func() {
+						defer func() {
+							if rec := recover(); rec != nil {
+								if simrt.IsAbort(rec) {
+									panic(rec)
+								}
+								e.Probe("unencodable-send-panicked")
+							}
+						}()
+						if err := r.tun.Send(&cemi.LDataReq{}); err == nil {
+							e.Violate("C03", "success-without-ack", "Send of an L_Data frame without a transport unit (nothing can have been transmitted for it) reported success")
+						}
+					}()
+					e.Fault("send-unencodable")
+				}
 				r.doSend(k)
 			}
 			r.sendersLeft--
@@ -860,7 +879,7 @@ func (r *tunRun) director() {
 				e.Fault("disconnect-response")
 				ch := cur.Channel
 				g.killEpoch("adversarial disconnect response")
-				g.SendRaw(mkDiscRes(ch, 0))
+				g.SendRaw(mkDiscRes(ch, []uint8{0, 0, 0x21, 0x26, 0xff}[e.Choose("flt.discresst", 5)])) // (whatever its status octet says, the connection is over)
 			}
 		case 8: // heartbeats unanswered for a while
 			g.StateSilent = true
